@@ -150,7 +150,8 @@ static void query_cb(void *arg, int status, int timeouts, struct ares_addrinfo *
 static int xv_ares_any_status(void)
 {
     int st = nondet_int();
-    __CPROVER_assume(st >= ARES_SUCCESS && st <= ARES_ESERVICE && st != ARES_ENOMEM && st != ARES_EDESTRUCTION);
+    /* (ARES_ECANCELLED is the status of lookups ended by ares_cancel(), which the library never calls) */
+    __CPROVER_assume(st >= ARES_SUCCESS && st <= ARES_ESERVICE && st != ARES_ENOMEM && st != ARES_EDESTRUCTION && st != ARES_ECANCELLED);
     return st;
 }
 /* the callback of the outstanding lookup is made now */
@@ -161,6 +162,9 @@ static void xv_ares_complete(int status)
         res = malloc(sizeof(struct ares_addrinfo));
         __CPROVER_assume(res != NULL);
         xv_ar.results++;
+        int n = nondet_int();          /* ANY list length (the list itself is not built: see A2) */
+        __CPROVER_assume(n >= 0 && n <= XV_NODES_MAX);
+        xv_ar.cb_nodes = n;
     }
     xv_ar.pending = 0; xv_ar.cb_n++; xv_ar.cb_status = status;
     query_cb(xv_ar.arg, status, nondet_int(), res);
